@@ -342,6 +342,9 @@ impl Story {
     }
 
     pub(crate) fn step(&mut self) -> Result<(), StoryError> {
+        #[cfg(feature = "verif-hooks")]
+        crate::verif::burn_fuel()?;
+
         let mut should_add_to_stream = true;
 
         // Get current content
